@@ -81,23 +81,26 @@ def forwardStrand : Filter := fun f => f.loc.strand == 1
 /-- `ReverseStrand` -/
 def reverseStrand : Filter := fun f => f.loc.strand == 2
 
-/-- `Qualifier(name, query)`; `none` = the error of `regexp.Compile`.
+/-- the closure `Qualifier(name, query)` returns once `query` compiled:
 * empty name: `for _, vv := range f.Props { for _, v := range vv {…} }` — the inner loop runs
   over the **whole row, name included** (as written in feature.go:158-167);
 * empty query: `f.Props.Has(name)`;
 * otherwise some value of `f.Props.Get(name)` (the first row of that name) is matched. -/
-def qualifierFilter (valid : String → Bool) (mtch : String → String → Bool)
-    (name query : String) : Option Filter :=
-  if !valid query then none
-  else if name = "" then
-    some fun f => f.props.any fun vv => vv.any fun v => mtch query v
+def qualEval (mtch : String → String → Bool) (name query : String) : Filter :=
+  if name = "" then
+    fun f => f.props.any fun vv => vv.any fun v => mtch query v
   else if query = "" then
-    some fun f => Props.has f.props name
+    fun f => Props.has f.props name
   else
-    some fun f =>
+    fun f =>
       match Props.get f.props name with
       | some vv => vv.any fun v => mtch query v
       | none => false
+
+/-- `Qualifier(name, query)`; `none` = the error of `regexp.Compile` (checked first). -/
+def qualifierFilter (valid : String → Bool) (mtch : String → String → Bool)
+    (name query : String) : Option Filter :=
+  if !valid query then none else some (qualEval mtch name query)
 
 /-! ### selectors (feature.go:188-233) -/
 
